@@ -288,6 +288,7 @@ define_run = REG.add(Contract(
            ".setdefault": Abstract(sort=None), ".replace": Abstract(), ".total_seconds": Abstract(sort="int"),
            "min": Abstract(pure=True), "max": Abstract(pure=True)},
     store_hooks={"run_md": lambda eng, st, key, value, node: st},
+    expected_dead=[("return", 'return self.define_run(name, {run_id: "all" for run_id in data})')],
     loops={1: Loop(lambda S, a: []), 2: Loop(lambda S, a: [])},
     loop_ghost={1: [], 2: ["defined"]},
     local_sorts={"keys": "V", "starts": "V", "run_md": "V", "tags": "V", "modes": "V", "sources": "V", "comments": "V"},
